@@ -198,6 +198,10 @@ class Sink:
         self.rep.inst(rule, fn, key, ok, where_, None if ok else detail, fact=fact)
 
 
+def ext_nop(interp, st, i, args):
+    return [(st, None)]
+
+
 def combine(*setups):
     def setup(run, st, env, names, args, sps):
         for s in setups:
